@@ -27,6 +27,13 @@ MACROS = {
         "#[kani::stub(crate::enc::encoder::LZMAEncoder::encode_lzma1_end_marker, crate::enc::lzma_writer::verif_kani::end_marker_stub)]",
         "#[kani::stub(crate::enc::encoder::LZMAEncoder::new, crate::enc::lzma_writer::verif_kani::enc_new_zeroed)]",
     ],
+    # range coder by contract: bit channel (kani/lib.rs); the real bit-tree / reverse-tree functions run on top of it
+    "BITCHAN": [
+        "#[kani::stub(crate::enc::range_enc::RangeEncoder::encode_bit, crate::enc::range_enc::verif_kani::enc_bit_stub)]",
+        "#[kani::stub(crate::enc::range_enc::RangeEncoder::encode_direct_bits, crate::enc::range_enc::verif_kani::enc_direct_stub)]",
+        "#[kani::stub(crate::range_dec::RangeDecoder::decode_bit, crate::range_dec::verif_kani::dec_bit_stub)]",
+        "#[kani::stub(crate::range_dec::RangeDecoder::decode_direct_bits, crate::range_dec::verif_kani::dec_direct_stub)]",
+    ],
     # LZMA2 payload layer by contract, seen from a container (XZ) writer: see kani/enc/lzma2_writer.rs
     "PAYLOAD_W": [
         "#[kani::stub(LZMA2Writer::new, %slzma2_new_zeroed)]" % LW,
